@@ -3,6 +3,7 @@
 package main
 
 import (
+	"encoding/json"
 	"sync"
 
 	"github.com/issue9/mux/v9"
@@ -12,6 +13,15 @@ import (
 // A router-family case is executed single-threaded on a WithLock(true) router built with -tags verif.
 // Every access hook reports its site, read/write, and the lock mode actually held, which a single
 // goroutine can determine exactly with TryLock / TryRLock: none / R / W.
+
+// dumpTree renders the real tree's shape (segment text, registered methods, ordered children) for the drift report.
+func dumpTree(r *mux.Router[*H]) string {
+	b, err := json.Marshal(mux.VerifDump(r))
+	if err != nil {
+		return ""
+	}
+	return string(b)
+}
 
 func lockMode(l *sync.RWMutex) string {
 	if l == nil {
